@@ -148,6 +148,10 @@ def gen_cases(rng, tier, scale):
                                   ('{{m_str s}}', '\x01str:str\x02'), ('{{{m_ret_i i}}}', '5'), ('{{m_ret_i n}}|{{m0}}', '\x01-4\x02|\x01zero\x02'),
                                   ('{{#each a}}{{m_ret_i 7}}{{/each}}', '\x017\x02\x017\x02')]):
         cases.append(rcase(f'mk{i}', t, DATA, pre=['macros', 'esc 2'], entry=4, kind='fixed', exp=exp, tags=['escape-marking']))
+    for i, (t, exp) in enumerate([('{{{m0}}}{{m_str s}}', 'zero\x01str:str\x02'), ('{{&m0}}|{{m_ret_i i}}', 'zero|\x015\x02'), ('{{{margs}}}{{m0}}', 'args:\x01zero\x02'),
+                                  ('{{#each a}}{{{mo0}}}{{/each}}{{m0}}', 'mo0:3mo0:3\x01zero\x02'), ('{{#if s}}{{{m0}}}{{/if}}{{#if s}}{{m_str s}}{{/if}}', 'zero\x01str:str\x02'),
+                                  ('{{{mkw}}}{{s}}', 'kw:\x01str\x02'), ('{{{m0}}}{{{m0}}}{{m0}}', 'zerozero\x01zero\x02')]):
+        cases.append(rcase(f'mr{i}', t, DATA, pre=['macros', 'esc 2'], entry=4, kind='fixed', exp=exp, tags=['escape-after-raw-call']))
     cases.append(rcase('esc0', '{{m_str lt}}|{{{m_str lt}}}', {'lt': '<'}, pre=['macros'], entry=4, kind='fixed', exp='str:&lt;|str:<', tags=['escape']))
     return cases
 
